@@ -384,14 +384,11 @@ impl HttpServer {
                     // notifying them that we will close the connection, then
                     // we discard it.
                     Err(ServerError::ServerFull) => {
-                        self.socket
-                            .accept()
-                            .map_err(ServerError::IOError)
-                            .and_then(move |(mut stream, _)| {
-                                stream
-                                    .write(SERVER_FULL_ERROR_MESSAGE)
-                                    .map_err(ServerError::IOError)
-                            })?;
+                        let (mut stream, _) =
+                            self.socket.accept().map_err(ServerError::IOError)?;
+                        // Best effort: the refused client may already be gone, which must
+                        // not fail the whole batch and disturb the other connections.
+                        let _ = stream.write(SERVER_FULL_ERROR_MESSAGE);
                     }
                     // An internal error will compromise any in-flight requests.
                     Err(error) => return Err(error),
